@@ -8,6 +8,7 @@ import YkModel.CoreState
 import YkModel.CoreOps
 import YkModel.Shim
 import YkModel.ResSpec
+import YkDrv.CoreStep
 open Lean Yk Yk.Core
 
 namespace YkDrv
@@ -304,52 +305,8 @@ def coreStep (st : CoreSt) (j : Json) : Except String (CoreSt × String) := do
          | tag :: rest => tag ++ "+released-inflight-replacement " ++ " ".intercalate rest
          | [] => f)
       else f)
-  -- one-step refinement: the model stepped from the implementation's previous state must reach its new state
-  let sj (k : String) := (jStr (fldD j k (.str ""))).toOption.getD ""
-  let msgT (m : Json) (k : String) := (jStr (fldD m k (.str ""))).toOption.getD ""
-  let stepped : Option Core := match st.prev with
-    | none => none
-    | some pre =>
-      match op with
-      | "node" =>
-        (match sj "action" with
-         | "create" => (jRes (fldD j "res" .null)).toOption.map (fun r => pre.nodeCreate (sj "id") r true)
-         | "create-drain" => (jRes (fldD j "res" .null)).toOption.map (fun r => pre.nodeCreate (sj "id") r false)
-         | "update" => (jRes (fldD j "res" .null)).toOption.map (fun r => pre.nodeUpdate (sj "id") r)
-         | "drain" => some (pre.nodeSchedulable (sj "id") false)
-         | "undrain" => some (pre.nodeSchedulable (sj "id") true)
-         | _ => none)
-      | "alloc" =>
-        let foreign := (jBool (fldD j "foreign" (.bool false))).toOption.getD false
-        let res := (jRes (fldD j "res" .null)).toOption.getD []
-        if foreign then (if pre.foreign.contains (sj "key") then none else some (pre.foreignAdd (sj "key") (sj "node") res))
-        else if sj "node" == "" then
-          (match pre.findApp (sj "app") with
-           | some a => if a.items.any (·.key == sj "key") then none
-                       else some (pre.ask (sj "app") (sj "key") res ((jBool (fldD j "ph" (.bool false))).toOption.getD false) (sj "tg") (sj "reqNode")).1
-           | none => some pre)
-        else none
-      | "release" =>
-        if sj "app" == "" then some (pre.foreignRemove (sj "key"))
-        else if sj "key" == "" then none
-        else if sj "type" != "STOPPED_BY_RM" && sj "type" != "UNKNOWN" then none
-        else (match pre.findApp (sj "app") with
-          | none => some pre
-          | some a => match a.items.find? (·.key == sj "key") with
-            | none => some pre
-            | some i => if i.release.isSome || i.released || i.preempted || !pre.reservations == 0 || a.items.any (fun x => x.release == some i.key) then none
-                        else some (pre.releaseKey (sj "app") (sj "key")))
-      | "schedule" =>
-        if msgs.any (fun m => msgT m "t" == "release") || pre.reservations != post.reservations then none
-        else
-          let allocs := msgs.filter (fun m => msgT m "t" == "alloc")
-          allocs.foldl (fun (acc : Option Core) m => acc.bind (fun c =>
-            match c.findApp (msgT m "app") with
-            | some a => match a.items.find? (·.key == msgT m "key") with
-              | some i => if i.release.isSome || !c.reservations == 0 then none else c.schedAlloc (msgT m "app") (msgT m "key") (msgT m "node")
-              | none => none
-            | none => none)) (some pre)
-      | _ => none
+  -- one-step refinement: the model stepped from the implementation's previous state must reach its new state (YkDrv/CoreStep.lean)
+  let stepped : Option Core := st.prev.bind (fun pre => steppedModel pre post op j msgs)
   let diff : Option String := stepped.bind (fun m => (ledgerDiff m post).map (fun e => "diff core." ++ op ++ " " ++ e))
   let okTag := if stepped.isSome then "ok" else "ok unmodelled"
   match diff, fails.isEmpty with
